@@ -261,6 +261,11 @@ pub struct Sched {
     /// on entering the receive state the caller switches the truncated-redirect opt-in on and straight off
     /// again, before any input: no trace may remain
     pub toggle_partial: bool,
+    /// the truncated-redirect opt-in is switched on and stays on; the caller of `Sched::random` clears this for
+    /// exchanges answered with a 3xx, so that for every exchange run with it the opt-in must not matter at all
+    pub partial_on: bool,
+    /// one more head write after the head is complete (a caller that writes until 0 comes back)
+    pub extra_head_write: bool,
     /// explicit arrival points (offsets into the driver's server slice); empty = use `arrive`
     pub cuts: Vec<usize>,
 }
@@ -278,6 +283,8 @@ impl Sched {
             direct: false,
             await_by_return: false,
             toggle_partial: false,
+            partial_on: false,
+            extra_head_write: false,
             stop_on_boundary: false,
             cuts: vec![],
         }
@@ -305,6 +312,8 @@ impl Sched {
             direct: rng.chance(1, 4),
             await_by_return: rng.chance(1, 4),
             toggle_partial: rng.chance(1, 4),
+            extra_head_write: rng.chance(1, 4),
+            partial_on: false,
             rng: rng.fork(),
             cuts: vec![],
         }
@@ -475,6 +484,7 @@ pub struct Driver<'a> {
     pub finished_body_write_calls: usize,
     pub direct_writes: usize,
     looked_after_100: bool,
+    wrote_after_head: bool,
     /// every look while awaiting 100: (window length offered, consumed, can_keep_await_100 afterwards)
     pub await_log: Vec<(usize, usize, bool)>,
     /// every try_response call: (window length offered, consumed, status if a response came back)
@@ -520,6 +530,7 @@ impl<'a> Driver<'a> {
             finished_body_write_calls: 0,
             direct_writes: 0,
             looked_after_100: false,
+            wrote_after_head: false,
             await_log: vec![],
             response_log: vec![],
             body_start: 0,
@@ -532,7 +543,12 @@ impl<'a> Driver<'a> {
         self.path.push(f.name());
         self.flow = f;
         self.stall = 0;
-        if self.sched.toggle_partial {
+        if self.sched.partial_on {
+            if let AnyFlow::RecvResponse(r) = &mut self.flow {
+                r.allow_partial_redirect(true);
+                rec.ev(|| "RecvResponse.allow_partial_redirect(true), left on".to_string());
+            }
+        } else if self.sched.toggle_partial {
             if let AnyFlow::RecvResponse(r) = &mut self.flow {
                 r.allow_partial_redirect(true);
                 r.allow_partial_redirect(false);
@@ -596,6 +612,25 @@ impl<'a> Driver<'a> {
                     // the header view is a query too: it may run the request analysis early but must
                     // not change what goes on the wire
                     let _ = f.headers_map();
+                }
+                if f.can_proceed() && self.sched.extra_head_write && !self.wrote_after_head {
+                    // a "write until it returns 0" caller: one more write although the head is complete
+                    // must put nothing on the wire and change nothing
+                    self.wrote_after_head = true;
+                    let size = *self.sched.rng.pick(&[0usize, 7, 64, 4096]);
+                    let mut buf = vec![0u8; size];
+                    rec.call();
+                    let r = f.write(&mut buf);
+                    rec.ev(|| format!("SendRequest.write(out={}) after the head was complete -> {:?}", size, r));
+                    let ok = matches!(r, Ok(0));
+                    self.flow = AnyFlow::SendRequest(f);
+                    if !ok {
+                        return Step::Failed {
+                            call: "SendRequest::write (after the head was complete)",
+                            err: format!("{:?} - once the head is complete further calls emit nothing", r),
+                        };
+                    }
+                    return Step::More;
                 }
                 if f.can_proceed() {
                     rec.call();
@@ -1209,6 +1244,8 @@ pub fn body_sender_ex(cl: Option<u64>, explicit_te: bool, use_call: bool, varian
     let despite = variant & 2 != 0 && !use_call;
     // bits 5..6: which body-less method the escape hatch is used on
     let despite_method = ["GET", "TRACE", "DELETE", "OPTIONS"][(variant >> 5) as usize & 3];
+    let expect = variant & (8 | 16) != 0 && !use_call;
+    let mk_req = || -> Request<()> {
     let mut b = Request::builder().method(if despite { despite_method } else { "POST" }).uri("http://h.test/up");
     if variant & 512 != 0 && (!despite || matches!(despite_method, "GET")) {
         b = b.version(Version::HTTP_10);
@@ -1219,12 +1256,15 @@ pub fn body_sender_ex(cl: Option<u64>, explicit_te: bool, use_call: bool, varian
     if variant & 1 != 0 {
         b = b.header("host", "h.test");
     }
-    let expect = variant & (8 | 16) != 0 && !use_call;
     if expect {
         b = b.header("expect", "100-continue");
     }
     if let Some(n) = cl {
         b = b.header("content-length", n.to_string());
+        if variant & 16384 != 0 {
+            // bit 14: a coding that is not chunked next to the content-length: the length still frames the body
+            b = b.header("transfer-encoding", "gzip");
+        }
     } else if explicit_te {
         // bit 7: the coding named with a capital letter
         b = b.header("transfer-encoding", if variant & 128 != 0 { "Chunked" } else { "chunked" });
@@ -1233,7 +1273,9 @@ pub fn body_sender_ex(cl: Option<u64>, explicit_te: bool, use_call: bool, varian
             b = b.header("content-length", "4242");
         }
     }
-    let req = b.body(()).unwrap();
+    b.body(()).unwrap()
+    };
+    let req = mk_req();
     let mut buf = [0u8; 256];
     if use_call {
         let mut c = Call::with_body(req).map_err(|e| format!("{:?}", e))?;
@@ -1248,7 +1290,33 @@ pub fn body_sender_ex(cl: Option<u64>, explicit_te: bool, use_call: bool, varian
             p.send_body_despite_method();
         }
         let mut f = p.proceed();
-        f.write(&mut buf).map_err(|e| format!("{:?}", e))?;
+        if variant & 8192 != 0 {
+            // bit 13: the head goes out one line per write, through buffers exactly as long as the line, so that
+            // the empty line is left for a write of its own - which then gets a roomy buffer. The line lengths
+            // are taken from the same request written in one go by a twin flow.
+            let mut twin = Flow::new(mk_req()).map_err(|e| format!("{:?}", e))?;
+            if despite {
+                twin.send_body_despite_method();
+            }
+            let mut twin = twin.proceed();
+            let n = twin.write(&mut buf).map_err(|e| format!("{:?}", e))?;
+            let whole = buf[..n].to_vec();
+            let mut out: Vec<u8> = Vec::new();
+            for line in whole.split_inclusive(|b| *b == b'\n') {
+                // (a caller writes while the flow is not ready to move on, and believes it when it says it is)
+                if f.can_proceed() {
+                    break;
+                }
+                let mut lb = vec![0u8; if line == b"\r\n" { 64 } else { line.len() }];
+                let k = f.write(&mut lb).map_err(|e| format!("head line {:?} into {} bytes: {:?}", String::from_utf8_lossy(line), lb.len(), e))?;
+                out.extend_from_slice(&lb[..k]);
+            }
+            if !whole.starts_with(&out) || (out != whole && !f.can_proceed()) {
+                return Err(format!("the head written line by line is {:?}, written in one go {:?}", String::from_utf8_lossy(&out), String::from_utf8_lossy(&whole)));
+            }
+        } else {
+            f.write(&mut buf).map_err(|e| format!("{:?}", e))?;
+        }
         if variant & 256 != 0 {
             // a caller that writes "until nothing comes out": the head is complete, nothing may follow
             let mut more = [0u8; 64];
